@@ -348,6 +348,36 @@ def _c07(prop, tier, seed, jobs, limit):
                                               'the call-before-definition clause is a concrete observation; PEP 649/749 (Python >= 3.14) is outside'])
 
 
+def _c13(prop, tier, seed, jobs, limit):
+    from . import c13
+
+    def post(cov, outs):
+        cov['concrete_side_conditions'] = {
+            'classes_observed': sum(1 for o in outs if getattr(o, 'side', None)),
+            'all_hold': all(not getattr(o, 'side', {}).get('problems') for o in outs),
+            'note': 'identity / idempotence / descriptor kind / __wrapped__ / name / doc / signature / inherited members / '
+                    'unannotated, @no_type_check and O0 identities are concrete observations, not solver coverage'}
+    return run_hint_family(prop, tier, seed, jobs, limit, run_case=c13.run_case, cases=c13.cases(tier, seed), post=post,
+                           funcs=['beartype._decor._type.decortype', 'beartype._decor._nontype.decornontype',
+                                  'beartype._decor._nontype._builtin.decorbuiltindescriptor', 'beartype._decor.decorcore',
+                                  'beartype._util.bear.utilbearfunc', 'beartype._util.func.utilfuncmake:make_func'],
+                           extra_assumptions=['classes are generated from one template (plain / class / static method, property getter+setter, nested class, '
+                                              'inherited member, dataclass) over enumerated hint pairs and configurations; the solver decides guard equivalence of the two routes for all argument objects and draws',
+                                              'metaclass-heavy classes, __slots__ descriptors, enum classes and PEP 557 field checking are outside'])
+
+
+def _c14(prop, tier, seed, jobs, limit):
+    from . import c14
+    return run_hint_family(prop, tier, seed, jobs, limit, run_case=c14.run_case, cases=c14.cases(tier, seed),
+                           funcs=['beartype._util.cache.utilcachecall', 'beartype._util.cache.utilcacheclear',
+                                  'beartype._check.checkmake:make_func_checker', 'beartype.door._cls.doormeta',
+                                  'beartype._check.forward.reference._cls.fwdrefmeta', 'beartype._util.func.utilfuncscope'],
+                           extra_assumptions=['histories come from a catalogue of adversarial scripts (+ seeded variations): enumerated, not quantified',
+                                              'a freshly re-imported copy of the beartype package (empty caches) stands in for a fresh interpreter',
+                                              'the checker the public API executes is identified by a profile hook on the generated code object',
+                                              'decorated calls, is_subhint / TypeHint comparisons after histories and thread interleavings are outside this check'])
+
+
 def _simple(prop, tier, seed, jobs, limit):
     return run_hint_family(prop, tier, seed, jobs, limit)
 
@@ -396,6 +426,8 @@ def _c04(prop, tier, seed, jobs, limit):
 RUNNERS = {
     'C04': _c04,
     'C12': _c12,
+    'C13': _c13,
+    'C14': _c14,
     'C18': _c18,
     'C01': _simple,
     'C02': _simple,
